@@ -489,7 +489,7 @@ def parse_bad(log, name):
 # ---------------------------------------------------------------------------
 # the attrs suite
 
-def fetch_cmds(msg, seq, rng):
+def fetch_cmds(msg, seq, rng, both=False):
     """list of (kind, info, command text) for message number seq"""
     cmds = [("main", None, "FETCH %d (RFC822.SIZE BODYSTRUCTURE ENVELOPE BODY.PEEK[] BODY.PEEK[HEADER] BODY.PEEK[TEXT])" % seq)]
     nodes = tree_paths(msg["tree"])
@@ -513,14 +513,15 @@ def fetch_cmds(msg, seq, rng):
     part = rnd_part(len(msg["text"]) // 2)
     cmds.append(("text_partial", {"part": part}, "FETCH %d (BODY.PEEK[TEXT]<%d.%d> BODY.PEEK[])" % (seq, part[0], part[1])))
     part = rnd_part(60)
-    if rng.random() < 0.5:
+    pick = rng.random() < 0.5
+    if pick or both:
         cmds.append(("all_partial", {"part": part}, "FETCH %d BODY.PEEK[]<%d.%d>" % (seq, part[0], part[1])))
-    else:
+    if not pick or both:
         cmds.append(("header_partial", {"part": part}, "FETCH %d (BODY.PEEK[HEADER]<%d.%d> BODY.PEEK[])" % (seq, part[0], part[1])))
     return cmds
 
 
-def scenario_ops(msgs, rng):
+def scenario_ops(msgs, rng, both=False):
     import proto_common as P
     ops = [{"op": "open", "conn": "sa", "kind": "tls"},
            {"op": "send", "conn": "sa", "data": "s1 LOGIN %s pw\r\n" % A, "until": "tag:s1"},
@@ -531,7 +532,7 @@ def scenario_ops(msgs, rng):
     ops.append({"op": "send", "conn": "sa", "data": "s2 SELECT INBOX\r\n", "until": "tag:s2"})
     plan = []
     for i, m in enumerate(msgs):
-        for j, (kind, info, cmd) in enumerate(fetch_cmds(m, i + 1, rng)):
+        for j, (kind, info, cmd) in enumerate(fetch_cmds(m, i + 1, rng, both)):
             tag = "f%dx%d" % (i, j)
             plan.append((len(ops), i, kind, info, cmd))
             ops.append({"op": "send", "conn": "sa", "data": "%s %s\r\n" % (tag, cmd), "until": "tag:" + tag})
@@ -974,7 +975,7 @@ def replay_corpus(chk):
         return
     import random
     rng = random.Random(14)
-    built = [scenario_ops(msgs, rng)]
+    built = [scenario_ops(msgs, rng, both=True)]
     results = C.run_many([built[0][0]], workers=1)
     evaluate_attrs(chk, [msgs], built, results, corpus_mode=True)
 
